@@ -87,6 +87,95 @@ theorem kw_skip_witness :
     wrapper .kwds exF [] (some [(1, iv 1), (3, iv 3)]) = .ok [.val (iv 1), .garbage, .dflt] ∧
     spec exF [] [(1, iv 1), (3, iv 3)] = [.val (iv 1), .dflt, .val (iv 3)] := by decide
 
+/-- **Call equivalence, full strength, for functions with at most one defaulted parameter.**  With distinct
+parameter names and distinct keywords (Python guarantees the latter), *every* accepted positional/keyword
+split delivers exactly the supplied values and the library's own default for the rest: keyword skipping
+needs two defaulted parameters. -/
+theorem call_equiv_single_default (ps : List Param) (pos : List Val) (kw : List (Nat × Val))
+    (slots : List (Option Val))
+    (hwf : trailing ps = true)
+    (hacc : parseArgs (fmtItems false ps) (kwlist ps) pos kw = .ok slots)
+    (hnames : (kwlist ps).Nodup) (hkeys : (kw.map (·.1)).Nodup)
+    (hone : countDefaults ps ≤ 1) :
+    wrapper .kwds ps pos (some kw) = .ok (spec ps pos kw) := by
+  have hparts : pos.length + kw.length ≤ (kwlist ps).length ∧
+      parseItems false (fmtItems false ps) (kwlist ps) pos kw = .ok slots ∧
+      kwAllKnown (kwlist ps) pos.length kw = true := by
+    unfold parseArgs at hacc
+    split at hacc
+    · cases hacc
+    · rename_i hle
+      split at hacc
+      · cases hacc
+      · rename_i s hs
+        split at hacc
+        · rename_i hk
+          injection hacc with hacc; subst hacc
+          exact ⟨by omega, hs, hk⟩
+        · cases hacc
+  obtain ⟨hle, hitems, hknown⟩ := hparts
+  obtain ⟨hsl, hmiss⟩ := parseItems_ok ps false pos kw slots hwf (by intro h; cases h) hitems
+  have hlen : (kwlist ps).length = (visible ps).length := by simp [kwlist]
+  have hcount := supplied_count (visible ps) pos kw (by omega)
+  have hdrop : ((visible ps).drop pos.length).map (·.name) = (kwlist ps).drop pos.length := by
+    simp [kwlist, List.map_drop]
+  rw [hdrop] at hcount
+  have hnd : ((kwlist ps).drop pos.length).Nodup := List.Nodup.sublist (List.drop_sublist _ _) hnames
+  have hsub : ∀ e ∈ kw, e.1 ∈ (kwlist ps).drop pos.length := by
+    intro e he
+    simp only [kwAllKnown, List.all_eq_true] at hknown
+    simpa using hknown e he
+  rw [count_lookup _ kw hnd hkeys hsub] at hcount
+  have hpre := prefix_of_single_default ps slots hwf hmiss hone
+  rw [hsl, hcount] at hpre
+  exact call_equiv_prefix_partial ps pos kw slots hwf hacc hpre
+
+/-- non-vacuity: `double fmix(long a, double b = 2.5)` called as `fmix(b=.., a=..)`. -/
+example : trailing (exF.take 2) = true ∧ (kwlist (exF.take 2)).Nodup ∧ countDefaults (exF.take 2) ≤ 1 ∧
+    parseArgs (fmtItems false (exF.take 2)) (kwlist (exF.take 2)) [] [(2, iv 7), (1, iv 8)]
+      = .ok [some (iv 8), some (iv 7)] ∧
+    wrapper .kwds (exF.take 2) [] (some [(2, iv 7), (1, iv 8)]) = .ok [.val (iv 8), .val (iv 7)] := by decide
+
+/-- **Exact characterisation.**  For a function with a default-argument `switch`, an accepted call reaches the
+library as specified *if and only if* the supplied parameters are the first `#positional + #keyword` ones:
+every accepted call that skips a defaulted parameter by keyword is delivered wrongly (an unparsed variable
+is passed and/or a supplied value is dropped), not only the witness below. -/
+theorem call_equiv_iff_prefix (ps : List Param) (pos : List Val) (kw : List (Nat × Val))
+    (slots : List (Option Val))
+    (hwf : trailing ps = true)
+    (hacc : parseArgs (fmtItems false ps) (kwlist ps) pos kw = .ok slots)
+    (hfd : foundDefault ps = true) :
+    wrapper .kwds ps pos (some kw) = .ok (spec ps pos kw) ↔
+      prefixMask (pos.length + kw.length) (supplied (visible ps) pos kw) = true := by
+  constructor
+  · intro hw
+    have hitems : parseItems false (fmtItems false ps) (kwlist ps) pos kw = .ok slots := by
+      unfold parseArgs at hacc
+      split at hacc
+      · cases hacc
+      · split at hacc
+        · cases hacc
+        · rename_i s hs
+          split at hacc
+          · injection hacc with hacc; subst hacc; exact hs
+          · cases hacc
+    obtain ⟨hsl, hmiss⟩ := parseItems_ok ps false pos kw slots hwf (by intro h; cases h) hitems
+    subst hsl
+    have hda := hasDefaultArg_of_foundDefault ps hfd
+    unfold wrapper at hw
+    simp only [Option.getD_some, hacc, hda, if_true, countArgs, hfd, switchCall] at hw
+    cases hfind : (defaultCalls 0 0 ps).find? (fun c => c.1 == pos.length + kw.length) with
+    | none => rw [hfind] at hw; cases hw
+    | some e =>
+      rw [hfind] at hw
+      simp only [Outcome.ok.injEq, spec] at hw
+      have hfind' : (defaultCalls 0 0 ps).find? (fun c => c.1 == 0 + (pos.length + kw.length)) = some e := by
+        simpa using hfind
+      exact switch_exact ps 0 0 (pos.length + kw.length) _ e hwf hmiss hfind' (by simpa using hw)
+  · exact call_equiv_prefix_partial ps pos kw slots hwf hacc
+
+example : foundDefault exF = true := by decide
+
 /-- The full-strength statement (without the prefix hypothesis) is false on the current code. -/
 theorem call_equiv_full_is_false :
     ¬ (∀ (ps : List Param) (pos : List Val) (kw : List (Nat × Val)) (slots : List (Option Val)),
